@@ -331,6 +331,8 @@ control("C09", "adding zero returns the operand itself",
         [(S, "        p1_is_number = IsNumber(p1)\n", "        p1_is_number = IsNumber(p1)\n        if operation in (\"Sum\", \"Subtract\") and ((p1_is_number and p1 == 0) or (IsNumber(p2) and p2 == 0)):\n            return self\n")], "C09.R1")
 control("C09", "left-number arm applies the callback with swapped operands",
         [(S, "                self._quantity, callback_operation(p1, self._value)", "                self._quantity, callback_operation(self._value, p1)")], "C09.R1")
+control("C15", "a query fills a new cache keyed by the unit string only",
+        [(Q, "        repr_and_exp: OrderedDict[Any, Any] = OrderedDict()\n        unit_database = self._unit_database\n", "        repr_and_exp: OrderedDict[Any, Any] = OrderedDict()\n        unit_database = self._unit_database\n        unit_database.quantities_cache.setdefault((\"name\", self._unit), self)\n        unit_database.names_seen[self._unit] = True  # type:ignore[attr-defined]\n")], "C15.R4")
 # ------------------------------------------------------------------------------------------ running
 def _apply(edits):
     overlay = {}
